@@ -70,7 +70,9 @@ func diffShared(a, b sharedSnap) []string {
 var concBases = []string{"http://example.com:0/dir/file?q=1", "http://[::1]:0/", "ws://h:81/p", "http://example.com/a/b?x=1#f", "http://u:p@h:8/a/b?q#f", "file:///C:/d/e", "x://h/a/b?k=v", "m:o?q", "https://1.2.3.4/"}
 var concRefs = []string{"../c", "?n=1", "#g", "//o/p", "", "d/./e", "x:y", "/\\z", "http:rel", " \tq "}
 var concInputs = []string{"http://h/a?b#c", "HTTP://EXAMPLE.com:80/%7e/../x", "file:///C|/x", "x:opaque path ", "http://[::1]:81/", "http://0x7f.1/", "ws://h/?a=1&b=2",
-	"http://u@h/", "nonsense", "http://h/\xff", "http://a\u00e9b.com/", "http://h//a//b"}
+	"http://u@h/", "nonsense", "http://h/\xff", "http://a\u00e9b.com/", "http://h//a//b",
+	// hosts that are not valid UTF-8 (raw bytes, escaped bytes): only the lax profiles accept them
+	"http://\x80\x81.com/", "http://\xff\xfe/p", "http://\u00e9%80.com/", "http://%ff%fe.org/", "http://a b/", "http://a%00b/"}
 
 type namedParser struct {
 	name string
